@@ -75,4 +75,22 @@ PROPS = {
         cfgs_quick=["std-debug", "std-release"],
         cfgs_thorough=["std-debug", "std-release"],
     ),
+    "C05": dict(
+        theorems=["skein_conforms", "process_block_is_ubi_step", "default_is_config_ubi", "output_loop_is_output"],
+        gen=g("C05"),
+        cfgs_quick=STD2,
+        cfgs_thorough=STD2 + ["nounroll-release"],
+    ),
+    "C09": dict(
+        theorems=["threefish_conforms", "unroll_eq_loop", "P_tables"],
+        gen=g("C09"),
+        cfgs_quick=["std-debug", "std-release", "nounroll-release"],
+        cfgs_thorough=["std-debug", "std-release", "nounroll-release", "nounroll-debug"],
+    ),
+    "C10": dict(
+        theorems=["dec_enc", "enc_dec", "mix_inverse"],
+        gen=g("C10"),
+        cfgs_quick=["std-debug", "std-release", "nounroll-release"],
+        cfgs_thorough=["std-debug", "std-release", "nounroll-release", "nounroll-debug"],
+    ),
 }
